@@ -52,7 +52,9 @@ pub fn cases(ctx: &Ctx) -> Vec<Case> {
     let long_c = format!("unicode-é日本語-{}/ü{}", "日".repeat(30), "ß".repeat(40));
     let names = ["a.txt", "empty", "with space.bin", "é日本語.dat", "sub/b.bin", "sub/deep/er/c", "sub/with space/d d", "z-last", "sub2/ü", "UPPER.TXT", long_a.as_str(), long_b.as_str(), long_c.as_str(), "sub/ninety-nine-bytes-path-padding-padding-padding-padding-padding-padding-padding-padding-pad",
         // dots that are not parent-directory components, other names a path filter may trip on
-        "notes..txt", "v1..2/x", "...", "..hidden", ".hidden", "trailing..", "dots/.../f", "a.b.c.d", "-dash", "sub/-o", "~", "sub/~tilde", "back\\slash", "q?*[glob]", "tab\there", "%41", "CON", "sub/nul"];
+        "notes..txt", "v1..2/x", "...", "..hidden", ".hidden", "trailing..", "dots/.../f", "a.b.c.d", "-dash", "sub/-o", "~", "sub/~tilde", "back\\slash", "q?*[glob]", "tab\there", "%41", "CON", "sub/nul",
+        // whitespace at the ends (and the same name without it, next to it)
+        "notes ", "notes", " lead", "sub/trail \t", "sub/trail"];
     for i in 0..n {
         let nf = 1 + rng.usize_below(6);
         let mut tree: BTreeMap<String, u64> = BTreeMap::new();
@@ -103,6 +105,17 @@ struct Out {
 
 fn run(env: &Env, args: &[String]) -> Out {
     let o = Command::new(&env.mlar).current_dir(&env.sb).args(args).output().expect("run mlar");
+    Out { code: o.status.code(), stdout: o.stdout, stderr: String::from_utf8_lossy(&o.stderr).chars().take(400).collect() }
+}
+
+/// same, with bytes given on the standard input
+fn run_with_stdin(env: &Env, args: &[String], input: &[u8]) -> Out {
+    use std::io::Write as _;
+    let mut ch = Command::new(&env.mlar).current_dir(&env.sb).args(args).stdin(std::process::Stdio::piped()).stdout(std::process::Stdio::piped()).stderr(std::process::Stdio::piped()).spawn().expect("run mlar");
+    if let Some(mut si) = ch.stdin.take() {
+        let _ = si.write_all(input);
+    }
+    let o = ch.wait_with_output().expect("wait mlar");
     Out { code: o.status.code(), stdout: o.stdout, stderr: String::from_utf8_lossy(&o.stderr).chars().take(400).collect() }
 }
 
@@ -424,12 +437,20 @@ pub fn run_case(ctx: &mut Ctx, c: &Case) {
         let mut args = vec![s("create")];
         args.extend(layer_args(&c.create, &env));
         args.extend([s("-o"), s("a0.mla")]);
-        if c.by_dir {
+        // the file list on the standard input (`-`), one path per line, for one case in four given by names
+        let list_on_stdin = !c.by_dir && c.seed % 4 == 1 && expected.keys().all(|n| !n.contains('\n'));
+        let r = if c.by_dir {
             args.push(s("in"));
+            run(&env, &args)
+        } else if list_on_stdin {
+            ctx.count("create:file_list_on_stdin");
+            args.push(s("-"));
+            let list: String = expected.keys().map(|n| format!("{n}\n")).collect();
+            run_with_stdin(&env, &args, list.as_bytes())
         } else {
             args.extend(expected.keys().cloned());
-        }
-        let r = run(&env, &args);
+            run(&env, &args)
+        };
         ctx.count(&format!("create:layers{}", c.create.layers));
         if r.code != Some(0) {
             return Err((format!("create-failed:layers{}", c.create.layers), json!({"exit": r.code, "stderr": r.stderr})));
@@ -447,8 +468,14 @@ pub fn run_case(ctx: &mut Ctx, c: &Case) {
             let mut args = vec![s(cmd), s("-i"), cur.clone()];
             args.extend(key_args(&cur_opts, &env, si));
             args.extend(layer_args(o, &env));
-            args.extend([s("-o"), next.clone()]);
+            // one pipeline in three sends the produced archive to the standard output (`-o -`)
+            let to_stdout = (c.seed / 4 + si as u64) % 3 == 0;
+            args.extend([s("-o"), if to_stdout { s("-") } else { next.clone() }]);
             let r = run(&env, &args);
+            if to_stdout {
+                ctx.count("step:output_on_stdout");
+                let _ = std::fs::write(env.sb.join(&next), &r.stdout);
+            }
             ctx.count(&format!("step:{cmd}"));
             if r.code != Some(0) {
                 return Err((format!("{cmd}-failed"), json!({"exit": r.code, "stderr": r.stderr, "from_layers": cur_opts.layers, "to_layers": o.layers})));
